@@ -262,6 +262,7 @@ class ScriptedSource(ScheduleSource):
         self.idx = idx
         self.spec = spec
         self.items: List[ScheduledTask] = [make_sched(s) for s in spec.get("schedules", [])]
+        self.stamps: Dict[str, int] = {}
         self.calls = 0
 
     def __repr__(self) -> str:
@@ -279,18 +280,26 @@ class ScriptedSource(ScheduleSource):
             w.fired("source_list_fail")
             w.rec("list_fail", source=self.idx, n=n)
             raise SimFault("listing failed")
-        res = list(self.items)
+        # a source may hand out its own list (the repository's test sources do) or a copy
+        res = self.items if self.spec.get("live_list") else list(self.items)
         w.rec("list_ok", source=self.idx, n=n, ids=[s.schedule_id for s in res])
         return res
 
     async def add_schedule(self, schedule: ScheduledTask) -> None:
-        self.items.append(schedule)
+        # additions and withdrawals replace the list (a listing already handed out keeps what it listed); only post_send edits in place
+        self.items = self.items + [schedule]
 
     async def delete_schedule(self, schedule_id: str) -> None:
         self.items = [s for s in self.items if s.schedule_id != schedule_id]
 
     def _pre(self, task: ScheduledTask) -> None:
         self.world.rec("pre_send", source=self.idx, id=task.schedule_id)
+        if self.spec.get("pre_stamp"):
+            # a source may modify the task it is about to send (a run counter, a trace label): labels and kwargs are stamped together
+            n = self.stamps[task.schedule_id] = self.stamps.get(task.schedule_id, 0) + 1
+            task.labels["run_no"] = str(n)
+            task.kwargs["run_no"] = n
+            self.world.fired("pre_send_modified_task")
         if task.schedule_id in self.spec.get("cancel", []):
             self.world.fired("cancelled")
             raise ScheduledTaskCancelledError
@@ -298,7 +307,7 @@ class ScriptedSource(ScheduleSource):
     def _post(self, task: ScheduledTask) -> None:
         self.world.rec("post_send", source=self.idx, id=task.schedule_id)
         if task.time is not None and task.cron is None and self.spec.get("remove_oneshot", True):
-            self.items = [s for s in self.items if s.schedule_id != task.schedule_id]
+            self.items[:] = [s for s in self.items if s.schedule_id != task.schedule_id]
 
     def pre_send(self, task: ScheduledTask) -> Any:
         if self.spec.get("async_hooks"):
@@ -463,7 +472,7 @@ async def _main(world: SchedWorld) -> None:
         def fire(op: dict = op) -> None:
             src = world.extra["sources"][op["source"]]
             if op["op"] == "add":
-                src.items.append(make_sched(op["sched"]))
+                src.items = src.items + [make_sched(op["sched"])]
                 world.fired("schedule_add")
                 world.rec("op_add", source=op["source"], id=op["sched"]["id"])
             elif op["op"] == "create":
